@@ -23,7 +23,7 @@ using sim::Json;
 #endif
 
 extern "C" {
-__attribute__((used)) const char* __asan_default_options() { return "exitcode=77:detect_leaks=0:abort_on_error=0:allocator_may_return_null=1"; }
+__attribute__((used)) const char* __asan_default_options() { return "exitcode=77:detect_leaks=0:abort_on_error=0:allocator_may_return_null=1:detect_stack_use_after_return=1"; }
 __attribute__((used)) const char* __tsan_default_options() { return "exitcode=66:halt_on_error=1:report_signal_unsafe=0"; }
 __attribute__((used)) const char* __ubsan_default_options() { return "print_stacktrace=1"; }
 }
